@@ -115,13 +115,18 @@ def num(x):
     v = float(x)
     if not TYPES:
         return v
-    k = _tick() % 11
+    k = _tick() % 13
     if k == 3:
         return np.float64(v)
     if k == 7 and v == int(v) and abs(v) < 2 ** 31:
         return int(v)
     if k == 9:
         return np.array(v)
+    if k == 11 and v == int(v) and abs(v) < 2 ** 31:
+        return (np.int64, np.int32)[_tick() % 2](v)   # numpy integer scalars (an element of np.arange, a count)
+    # (np.float32 scalars are deliberately NOT used for scalar arguments: under numpy's promotion rules a float32 scalar
+    # combined with a Python float stays float32, so `t_end - t_start` would be computed in single precision - that is
+    # the caller's choice of precision, not a property of the library)
     return v
 
 
@@ -220,7 +225,8 @@ class Impl(object):
             k = _tick() % 6
             ii = self.idx(ix)
             if k == 2:
-                return f(L, indices=np.array(ii), **kw)
+                dt = (np.int64, np.int8, np.uint8, np.int16)[_tick() % 4]    # narrow integer index arrays too
+                return f(L, indices=np.array(ii, dtype=dt if max(ii) < 120 else np.int64), **kw)
             if k == 4:
                 return f(L, indices=tuple(ii), **kw)
             if k == 5 and ii == list(range(ii[0], ii[0] + len(ii))):
